@@ -626,6 +626,18 @@ fn verif_cex_read_input_method_equals_the_others() {
             if got != want {
                 report("encode-read-differs-from-encode", x, &format!("{:?}", cs), &hex(&got), &hex(&want));
             }
+            // encoder used as a ZeroCopySink (what rough_tlv writes into): append_copy / append_borrow alternating
+            {
+                use owning_iovec::ZeroCopySink;
+                let mut e = Encoder::new();
+                for (k, p) in pieces.iter().enumerate() {
+                    if k % 2 == 0 { e.append_copy(p) } else { e.append_borrow(p) }
+                }
+                let got = e.finish().flatten().expect("no backpatch left");
+                if got != want {
+                    report("zero-copy-sink-differs-from-encode", x, &format!("{:?}", cs), &hex(&got), &hex(&want));
+                }
+            }
             // decoder: the encoded stream through decode_read, cut at the same relative places
             let y = &want;
             let mut d = Decoder::new();
